@@ -98,6 +98,23 @@ theorem differs_argument_repainted :
   exact ⟨h.1, h.2.1, h.2.2, not_tame_of_not_agree defs toks
     (fun m hm => wfMacro_of_wfB m (by revert m; decide)) h.2.2⟩
 
+/-- **argument-list-ends-behind-replacement-list.** `#define F(X) X +`, `#define G F(1`; `G) 2`.  rssl rescans the
+replacement list of `G` on its own, finds `F (` and no end of the argument list: `MacroArgumentsNeverEnd`; C rescans the
+replacement list together with the rest of the source, reads `F(1)` across its end and gives `1 + 2`.  (`Tame` has no
+derivation: `readArgs` fails inside the replacement list, and `F` cannot be kept in front of `(`.) -/
+theorem differs_argument_list_ends_behind_replacement_list :
+    let defs : List Macro := [⟨"F", true, 1, loc [.arg 0, .ws, .punct "+"]⟩,
+      ⟨"G", false, 0, loc [.id "F", .lparen, .int "1"]⟩]
+    let toks := loc [.id "G", .rparen, .ws, .int "2"]
+    applyMacros defs toks = .error .macroArgumentsNeverEnd ∧
+      refToks defs 10 toks = .ok [.int "1", .punct "+", .int "2"] ∧ ¬ Agree defs toks ∧
+      ¬ ∃ out, Tame (allEnabled defs) toks out := by
+  intro defs toks
+  have h := differs_of_eval defs toks 10 10 (.error .macroArgumentsNeverEnd) [.int "1", .punct "+", .int "2"] (by decide)
+    (by decide +kernel) (by intro out ho; cases ho)
+  exact ⟨h.1, h.2.1, h.2.2, not_tame_of_not_agree defs toks
+    (fun m hm => wfMacro_of_wfB m (by revert m; decide)) h.2.2⟩
+
 /-- **painted-function-name-reinvoked.** `#define A B(A)`, `#define B(X) X B`; `A(1)`.  rssl: `A 1 B` (the `B` at the
 end of `A`'s expansion came out of `B` itself, but only the macro applied last is remembered); C: `A B ( 1 )`. -/
 theorem differs_painted_function_name_reinvoked :
@@ -230,6 +247,62 @@ theorem agrees_line_end_before_parenthesis :
   · exact agree_of_eval _ _ (loc [.int "7"]) 10 10 [.int "7"] (by decide) (by decide +kernel) (by decide)
   · exact tameRun_sound 10 _ _ _ (by decide) (by decide)
   · exact agree_of_eval _ _ (loc [.int "7"]) 12 12 [.int "7"] (by decide) (by decide +kernel) (by decide)
+
+/-- **Higher-order use of macros: the name of a function-like macro passed as an argument and invoked by the
+replacement list.**  `#define NEG(v) (-(v))`, `#define APPLY(f, x) f(x)`: `APPLY(NEG, a)` gives `(-(a))`; the X-macro
+idiom `#define LIST(X) X(1) X(2)`, `LIST(DECL)` (also with a `DECL` that pastes, `v ## n`); `#define CALL(f, args) f args`,
+`CALL(ADD, (p, q))`.  In each the argument is the bare name of an *enabled* function-like macro, so what the argument
+expands to (itself) is not `OnlyDisabled`; it is `AllKept`: nothing happens in the argument, its token reaches the
+replacement list with exactly the hide set of the invocation, and the rescan of the replacement list -- which rssl
+carries out for *every* invocation, whatever the replacement list consists of (`source_shape`: `bodyAlwaysRescanned`) --
+invokes it on both sides.  The inputs lie in the class of `expand_refines_spec` / `expand_refines_spec_with_paste`
+(rule `invoke`, side condition `ArgOK`), so the agreement is an instance of the refinement theorem; here model and
+reference are also evaluated.  (A preprocessor that skips the rescan when the replacement list holds no identifier
+of its own -- seeded mutant C12-3 -- leaves `NEG(a)`, `DECL(1) DECL(2)`, `ADD (p, q)`.) -/
+theorem agrees_on_higher_order_invocation :
+    let NEG : Macro := ⟨"NEG", true, 1, loc [.lparen, .punct "-", .lparen, .arg 0, .rparen, .rparen]⟩
+    let APPLY : Macro := ⟨"APPLY", true, 2, loc [.arg 0, .lparen, .arg 1, .rparen]⟩
+    let DECL : Macro := ⟨"DECL", true, 1, loc [.id "int", .ws, .arg 0, .punct ";"]⟩
+    let DECLP : Macro := ⟨"DECLP", true, 1, loc [.id "v", .ws, .concat, .ws, .arg 0, .punct ";"]⟩
+    let LIST : Macro := ⟨"LIST", true, 1, loc [.arg 0, .lparen, .int "1", .rparen, .ws, .arg 0, .lparen, .int "2", .rparen]⟩
+    let ADD : Macro := ⟨"ADD", true, 2, loc [.arg 0, .ws, .punct "+", .ws, .arg 1]⟩
+    let CALL : Macro := ⟨"CALL", true, 2, loc [.arg 0, .ws, .arg 1]⟩
+    let apply := loc [.id "APPLY", .lparen, .id "NEG", .comma, .ws, .id "a", .rparen]
+    let list := loc [.id "LIST", .lparen, .id "DECL", .rparen]
+    let listp := loc [.id "LIST", .lparen, .id "DECLP", .rparen]
+    let call := loc [.id "CALL", .lparen, .id "ADD", .comma, .ws, .lparen, .id "p", .comma, .ws, .id "q", .rparen, .rparen]
+    (applyMacros [NEG, APPLY] apply = .ok (loc [.lparen, .punct "-", .lparen, .id "a", .rparen, .rparen]) ∧
+      Agree [NEG, APPLY] apply ∧
+      Tame (allEnabled [NEG, APPLY]) apply (loc [.lparen, .punct "-", .lparen, .id "a", .rparen, .rparen])) ∧
+    (applyMacros [DECL, LIST] list =
+        .ok (loc [.id "int", .ws, .int "1", .punct ";", .ws, .id "int", .ws, .int "2", .punct ";"]) ∧
+      Agree [DECL, LIST] list ∧
+      Tame (allEnabled [DECL, LIST]) list
+        (loc [.id "int", .ws, .int "1", .punct ";", .ws, .id "int", .ws, .int "2", .punct ";"])) ∧
+    (applyMacros [DECLP, LIST] listp = .ok (loc [.id "v1", .punct ";", .ws, .id "v2", .punct ";"]) ∧
+      Agree [DECLP, LIST] listp ∧
+      TameP (allEnabled [DECLP, LIST]) listp (loc [.id "v1", .punct ";", .ws, .id "v2", .punct ";"])) ∧
+    (applyMacros [ADD, CALL] call = .ok (loc [.id "p", .ws, .punct "+", .ws, .id "q"]) ∧
+      Agree [ADD, CALL] call ∧
+      Tame (allEnabled [ADD, CALL]) call (loc [.id "p", .ws, .punct "+", .ws, .id "q"])) := by
+  intro NEG APPLY DECL DECLP LIST ADD CALL apply list listp call
+  refine ⟨⟨?_, ?_, ?_⟩, ⟨?_, ?_, ?_⟩, ⟨?_, ?_, ?_⟩, ⟨?_, ?_, ?_⟩⟩
+  · exact model_eval 12 _ _ _ (by decide)
+  · exact agree_of_eval _ _ (loc [.lparen, .punct "-", .lparen, .id "a", .rparen, .rparen]) 12 12
+      [.lparen, .punct "-", .lparen, .id "a", .rparen, .rparen] (by decide) (by decide +kernel) (by decide)
+  · exact tameRun_sound 12 _ _ _ (by decide) (by decide)
+  · exact model_eval 14 _ _ _ (by decide)
+  · exact agree_of_eval _ _ (loc [.id "int", .ws, .int "1", .punct ";", .ws, .id "int", .ws, .int "2", .punct ";"]) 14 14
+      [.id "int", .int "1", .punct ";", .id "int", .int "2", .punct ";"] (by decide) (by decide +kernel) (by decide)
+  · exact tameRun_sound 14 _ _ _ (by decide) (by decide)
+  · exact model_eval 14 _ _ _ (by decide)
+  · exact agree_of_eval _ _ (loc [.id "v1", .punct ";", .ws, .id "v2", .punct ";"]) 14 14
+      [.id "v1", .punct ";", .id "v2", .punct ";"] (by decide) (by decide +kernel) (by decide)
+  · exact RsslVerif.Lemmas.MacroTamePRun.tameRunP_sound 14 _ _ _ (by decide) (by decide)
+  · exact model_eval 12 _ _ _ (by decide)
+  · exact agree_of_eval _ _ (loc [.id "p", .ws, .punct "+", .ws, .id "q"]) 12 12
+      [.id "p", .punct "+", .id "q"] (by decide) (by decide +kernel) (by decide)
+  · exact tameRun_sound 12 _ _ _ (by decide) (by decide)
 
 /-- **Invocations completed after the end of an expansion on which rssl and C agree** (the counterpart of
 `differs_painted_function_name_reinvoked` / `differs_function_name_before_vanished_macro`; the universal statement
